@@ -13,6 +13,8 @@ def cases(draw, procs=False):
     spec = draw(gen.worlds(max_layers=6, min_layers=2, hooks='any', faults=faults, nie=nie,
                            kinds=('pass', 'pass', 'fail', 'error', 'skip_body'), max_modules=2, depth=2,
                            max_tests=3, weights_good=80, layer_decl=90, explicit_unit=True, max_children=4))
+    if draw(st.integers(0, 5)) == 0:
+        spec = draw(gen.shaped_world(nie=procs))
     # layer-level hooks should be common, otherwise the trace sees little
     for L in spec['layers']:
         if draw(st.integers(0, 99)) < 60:
